@@ -46,7 +46,7 @@ type org struct {
 func (o org) union(p org) org {
 	return org{o.pdir | p.pdir, o.pdeep | p.pdeep, o.global || p.global, o.unknown || p.unknown}
 }
-func (o org) deepen() org { return org{0, o.pdeep | o.pdir, o.global, o.unknown} }
+func (o org) deepen() org  { return org{0, o.pdeep | o.pdir, o.global, o.unknown} }
 func (o org) isZero() bool { return o == org{} }
 
 type access struct {
@@ -55,6 +55,7 @@ type access struct {
 	target string
 	pos    string
 	guard  int
+	lock   string // the mutex held ("Struct.field" or "global name"), "" if none
 	org    org
 	loc    string
 }
@@ -875,7 +876,7 @@ func locOf(v ssa.Value, depth int) string {
 	case *ssa.Lookup:
 		return locOf(v.X, depth+1)
 	case *ssa.Global:
-		return "global." + v.Name()
+		return v.Name()
 	}
 	return ""
 }
@@ -1052,12 +1053,12 @@ func (fi *finfo) collect() {
 	}
 	once := fi.onceGuarded()
 	// guard of an access at position at, to memory based at target; reads may be guarded by RLock
-	guardOf := func(at ipos, target ssa.Value, isRead bool) int {
+	guardOf := func(at ipos, target ssa.Value, isRead bool) (int, string) {
 		if once {
-			return 3
+			return 3, "once"
 		}
 		tb := baseOf(target, 0)
-		best := 0
+		best, bestLock := 0, ""
 		for _, l := range locks {
 			if l.read && !isRead {
 				continue
@@ -1081,23 +1082,24 @@ func (fi *finfo) collect() {
 			switch mb.(type) {
 			case *ssa.Global:
 				if best == 0 {
-					best = 2
+					best, bestLock = 2, "global "+locOf(l.mutex, 0)
 				}
 			case *ssa.Parameter, *ssa.FreeVar:
 				if tb != nil && tb == mb {
-					best = 1
+					best, bestLock = 1, locOf(l.mutex, 0)
 				}
 			}
 		}
-		return best
+		return best, bestLock
 	}
 	write := func(at ipos, ins ssa.Instruction, kind string, target ssa.Value) {
 		o := fi.get(target)
 		if o.isZero() {
 			return
 		}
+		gk, lock := guardOf(at, target, false)
 		fi.writes = append(fi.writes, access{kind: kind, target: describe(target, map[ssa.Value]bool{}),
-			pos: fi.pos(ins.Pos()), guard: guardOf(at, target, false), org: o, loc: locOf(target, 0)})
+			pos: fi.pos(ins.Pos()), guard: gk, lock: lock, org: o, loc: locOf(target, 0)})
 	}
 	for _, b := range fi.f.Blocks {
 		for i, ins := range b.Instrs {
@@ -1145,8 +1147,9 @@ func (fi *finfo) collect() {
 				}
 				if o := fi.get(ins.X); !o.isZero() {
 					s, f := fieldOf(ins.X, ins.Field)
+					gk, lock := guardOf(at, ins, true)
 					fi.reads = append(fi.reads, access{kind: "read", target: describe(ins, map[ssa.Value]bool{}),
-						pos: fi.pos(ins.Pos()), guard: guardOf(at, ins, true), org: o, loc: s + "." + f})
+						pos: fi.pos(ins.Pos()), guard: gk, lock: lock, org: o, loc: s + "." + f})
 				}
 			case *ssa.UnOp:
 				// copying a whole struct reads every field it holds by value
@@ -1160,9 +1163,10 @@ func (fi *finfo) collect() {
 				if o.isZero() {
 					continue
 				}
+				gk, lock := guardOf(at, ins.X, true)
 				for _, loc := range structLocs(ins.Type()) {
 					fi.reads = append(fi.reads, access{kind: "copy", target: describe(ins.X, map[ssa.Value]bool{}) + "{" + loc + "}",
-						pos: fi.pos(ins.Pos()), guard: guardOf(at, ins.X, true), org: o, loc: loc})
+						pos: fi.pos(ins.Pos()), guard: gk, lock: lock, org: o, loc: loc})
 				}
 			}
 		}
